@@ -22,7 +22,20 @@ pub fn install_panic_hook() {
         } else {
             "<non-string panic payload>".to_string()
         };
-        let loc = info.location().map(|l| format!("{}:{}", l.file(), l.line())).unwrap_or_default();
+        let mut loc = info.location().map(|l| format!("{}:{}", l.file(), l.line())).unwrap_or_default();
+        if !loc.contains("/rsass/src/") {
+            // panic raised inside std/core: name the innermost rsass frame
+            let bt = std::backtrace::Backtrace::force_capture().to_string();
+            let mut lines = bt.lines();
+            while let Some(l) = lines.next() {
+                let func = l.trim().splitn(2, ": ").nth(1).unwrap_or("");
+                if func.starts_with("rsass::") || func.starts_with("<rsass::") {
+                    let at = lines.next().unwrap_or("").trim().trim_start_matches("at ").to_string();
+                    loc = format!("{loc} in {func} ({at})");
+                    break;
+                }
+            }
+        }
         LAST_PANIC.with(|p| *p.borrow_mut() = Some(format!("{msg} @ {loc}")));
     }));
 }
